@@ -567,6 +567,56 @@ func (ts *Typestate) unlink(st *tsState, a *ssa.Alloc) {
 
 func (ts *Typestate) refine(cond ssa.Value, taken bool, st *tsState) {
 	switch c := cond.(type) {
+	case *ssa.Call:
+		// a predicate method of the record (`v.IsRanked()`, `w.IsFinal()`): refine by the set of field values for
+		// which it can answer the way this edge needs
+		g := c.Call.StaticCallee()
+		if g == nil || len(g.Blocks) == 0 || !isProdPkgFn(g) {
+			return
+		}
+		for k, arg := range c.Call.Args {
+			var a *ssa.Alloc
+			switch x := arg.(type) {
+			case *ssa.Alloc:
+				a = x
+			case *ssa.UnOp:
+				if x.Op == token.MUL {
+					a, _ = x.X.(*ssa.Alloc)
+				}
+			}
+			if a == nil {
+				continue
+			}
+			if _, tracked := st.field[a]; !tracked {
+				continue
+			}
+			tset, fset, ok := ts.p.predicateSets(g, k, ts.Struct, ts.Field, ts.Enum)
+			if !ok {
+				continue
+			}
+			ns := fset
+			if taken {
+				ns = tset
+			}
+			group := map[*ssa.Alloc]bool{a: true}
+			for changed := true; changed; {
+				changed = false
+				for x, y := range st.same {
+					if group[x] != group[y] {
+						group[x], group[y] = true, true
+						changed = true
+					}
+				}
+			}
+			for gr := range group {
+				st.field[gr] &= ns
+			}
+			for ov, oa := range st.link {
+				if group[oa] {
+					st.val[ov] &= ns
+				}
+			}
+		}
 	case *ssa.UnOp:
 		if c.Op == token.NOT {
 			ts.refine(c.X, !taken, st)
@@ -757,4 +807,177 @@ func (p *Prog) mayStoreFieldThroughPointer(g *ssa.Function, structT *types.Named
 		}
 	}
 	return false
+}
+
+
+type predKey struct {
+	g *ssa.Function
+	k int
+	f string
+}
+
+var predMemo = map[predKey][3]uint64{}
+
+// predicateSets: for a side-effect-free boolean function g whose k-th parameter is a record (value or pointer) of
+// type structT: the set of values of the record's enum field for which g can return true, and for which it can
+// return false. Decided by walking g's CFG once per enum value, following only the branches that value allows
+// (comparisons of the field with constants are evaluated; every other condition goes both ways).
+func (p *Prog) predicateSets(g *ssa.Function, k int, structT *types.Named, field string, en *Enum) (EnumSet, EnumSet, bool) {
+	key := predKey{g, k, structT.Obj().Name() + "." + field}
+	if m, ok := predMemo[key]; ok {
+		return EnumSet(m[0]), EnumSet(m[1]), m[2] == 1
+	}
+	fail := func() (EnumSet, EnumSet, bool) { predMemo[key] = [3]uint64{0, 0, 0}; return 0, 0, false }
+	res := g.Signature.Results()
+	if res.Len() != 1 || k >= len(g.Params) {
+		return fail()
+	}
+	if bt, ok := res.At(0).Type().Underlying().(*types.Basic); !ok || bt.Kind() != types.Bool {
+		return fail()
+	}
+	if nt := namedOf(g.Params[k].Type()); nt == nil || nt.Obj() != structT.Obj() {
+		return fail()
+	}
+	// no writes, no calls other than pure getters
+	for _, b := range g.Blocks {
+		for _, in := range b.Instrs {
+			switch x := in.(type) {
+			case *ssa.Store:
+				// the spill of a value parameter into its local is fine
+				if _, isParam := x.Val.(*ssa.Parameter); !isParam {
+					return fail()
+				}
+			case *ssa.MapUpdate, *ssa.Send, *ssa.Go, *ssa.Defer:
+				return fail()
+			}
+		}
+	}
+	// is v a load of the param's field?
+	isField := func(v ssa.Value) bool {
+		switch x := v.(type) {
+		case *ssa.UnOp:
+			if x.Op != token.MUL {
+				return false
+			}
+			fa, ok := x.X.(*ssa.FieldAddr)
+			if !ok || fieldName(fa.X.Type(), fa.Field) != field {
+				return false
+			}
+			switch base := fa.X.(type) {
+			case *ssa.Parameter:
+				return base == g.Params[k]
+			case *ssa.Alloc:
+				for _, ref := range *base.Referrers() {
+					if st, ok := ref.(*ssa.Store); ok && st.Addr == ssa.Value(base) && st.Val == ssa.Value(g.Params[k]) {
+						return true
+					}
+				}
+			}
+		case *ssa.Field:
+			return x.X == ssa.Value(g.Params[k]) && fieldName(x.X.Type(), x.Field) == field
+		case *ssa.Call:
+			if cf := calleeFunc(&x.Call); cf != nil && cf.Name() == "Get"+field && len(x.Call.Args) == 1 {
+				if x.Call.Args[0] == ssa.Value(g.Params[k]) {
+					return true
+				}
+			}
+		}
+		return false
+	}
+	// tri-state evaluation of a boolean value for field value `val`, entering its block from pred
+	const (
+		bFalse = 1
+		bTrue  = 2
+	)
+	var eval func(v ssa.Value, val int64, pred *ssa.BasicBlock, depth int) int
+	eval = func(v ssa.Value, val int64, pred *ssa.BasicBlock, depth int) int {
+		if depth > 8 {
+			return bFalse | bTrue
+		}
+		switch x := v.(type) {
+		case *ssa.Const:
+			if x.Value != nil && x.Value.String() == "true" {
+				return bTrue
+			}
+			return bFalse
+		case *ssa.UnOp:
+			if x.Op == token.NOT {
+				r := eval(x.X, val, pred, depth+1)
+				out := 0
+				if r&bTrue != 0 {
+					out |= bFalse
+				}
+				if r&bFalse != 0 {
+					out |= bTrue
+				}
+				return out
+			}
+		case *ssa.BinOp:
+			if x.Op == token.EQL || x.Op == token.NEQ {
+				var kc *ssa.Const
+				var other ssa.Value
+				if c, ok := x.Y.(*ssa.Const); ok {
+					kc, other = c, x.X
+				} else if c, ok := x.X.(*ssa.Const); ok {
+					kc, other = c, x.Y
+				}
+				if kc != nil && kc.Value != nil && isField(other) {
+					kv, _ := constant.Int64Val(constant.ToInt(kc.Value))
+					if (kv == val) == (x.Op == token.EQL) {
+						return bTrue
+					}
+					return bFalse
+				}
+			}
+		case *ssa.Phi:
+			if pred != nil && x.Block() != nil {
+				for i, pb := range x.Block().Preds {
+					if pb == pred {
+						return eval(x.Edges[i], val, nil, depth+1)
+					}
+				}
+			}
+		}
+		return bFalse | bTrue
+	}
+	var tset, fset EnumSet
+	for _, val := range en.Values {
+		type node struct{ b, pred *ssa.BasicBlock }
+		seen := map[node]bool{}
+		var walk func(b, pred *ssa.BasicBlock)
+		result := 0
+		walk = func(b, pred *ssa.BasicBlock) {
+			if seen[node{b, pred}] {
+				return
+			}
+			seen[node{b, pred}] = true
+			switch last := b.Instrs[len(b.Instrs)-1].(type) {
+			case *ssa.Return:
+				result |= eval(last.Results[0], val, pred, 0)
+			case *ssa.If:
+				r := eval(last.Cond, val, pred, 0)
+				if r&bTrue != 0 {
+					walk(b.Succs[0], b)
+				}
+				if r&bFalse != 0 {
+					walk(b.Succs[1], b)
+				}
+			default:
+				for _, sb := range b.Succs {
+					walk(sb, b)
+				}
+			}
+		}
+		walk(g.Blocks[0], nil)
+		if val >= 0 && val < 64 {
+			if result&bTrue != 0 {
+				tset |= EnumSet(1) << uint(val)
+			}
+			if result&bFalse != 0 {
+				fset |= EnumSet(1) << uint(val)
+			}
+		}
+	}
+	predMemo[key] = [3]uint64{uint64(tset), uint64(fset), 1}
+	return tset, fset, true
 }
